@@ -12,7 +12,7 @@ COL_WIDTH = 6.25  # default portrait col_width (8.5 - 2.25)
 def make_table(heights, groups=None, *, ndata=2, fonts=None, sizes=None, subline=None, page_by_levels=0,
                new_page=False, pageby_row=None, pageby_header=None, header="explicit", footnote=None, source=None,
                nrow=10, placements=None, tall_cols=None, title=False, group_first=True, rel_widths=None, shared=None,
-               reverse_group_cols=False, size_pattern=None, null_cells=None, tall_header=0, tall_header_col=None, group_by_runs=None, glyphs=None):
+               reverse_group_cols=False, size_pattern=None, null_cells=None, tall_header=0, tall_header_col=None, group_by_runs=None, glyphs=None, as_colheader=None):
     """Deterministic builder.
     heights: list of target line counts per row.
     groups: list (one per page_by level) of per-row values; subline: per-row values or None.
@@ -135,6 +135,8 @@ def make_table(heights, groups=None, *, ndata=2, fonts=None, sizes=None, subline
         sec["headers"] = "none"
     else:
         sec["headers"] = "default"
+    if as_colheader is not None:
+        body["as_colheader"] = as_colheader
     page = {"nrow": nrow}
     if placements:
         page.update(dict(zip(("page_title", "page_footnote", "page_source"), placements)))
@@ -216,7 +218,17 @@ def lengthen_groups(draw, groups, p=4):
         longer = {}
         for v in dict.fromkeys(col):
             if isinstance(v, str) and v != "-----" and draw(st.integers(0, 9)) < p:
-                t = metrics.filler(draw(st.integers(2, 3)), COL_WIDTH, 1, 9, prefix=v)
+                kind = draw(st.sampled_from(["normal", "wide", "narrow", "many_narrow_chars_one_line"]))
+                if kind == "many_narrow_chars_one_line":
+                    # more characters than any wrapping heading, yet one line: a "longest string" is not the widest one
+                    t = v
+                    for k in range(200):
+                        nxt = t + " " + metrics.NARROW_WORDS[k % len(metrics.NARROW_WORDS)]
+                        if metrics.width_in(nxt, 1, 9) > 0.75 * COL_WIDTH:
+                            break
+                        t = nxt
+                else:
+                    t = metrics.filler(draw(st.integers(2, 3)), COL_WIDTH, 1, 9, prefix=v, words=metrics.WORD_SETS[kind])
                 if t is not None:
                     longer[v] = t
         out.append([longer.get(v, v) for v in col])
@@ -297,6 +309,8 @@ def pag_recipe(draw, *, fonts=False, strategies=("plain", "page_by", "page_by_ne
                      size_pattern=size_pattern,
                      tall_header=draw(st.integers(2, 3)) if (tall_headers and draw(st.integers(0, 9)) < 4) else 0,
                      tall_header_col=draw(st.integers(0, 3)), group_by_runs=gb_runs,
+                     # explicit header rows are rendered (and take their lines) whatever as_colheader says
+                     as_colheader=False if (header in ("explicit", "multi") and draw(st.integers(0, 9)) < 2) else None,
                      glyphs=[draw(st.sampled_from(["normal", "wide", "narrow"])) for _ in range(draw(st.integers(1, 4)))] if (glyph_mix and draw(st.booleans())) else None)
     rec["strategy"] = strat
     return rec
